@@ -33,7 +33,7 @@ def trusted_base(pid):
         "extraction: Require Extraction + ExtrOcamlBasic only (bool, option, unit, prod, list, sumbool, sumor extracted to OCaml natives; N/positive stay inductive; no Extract Constant), OCaml 4.13 driver coq/driver/model_run.ml",
         "correspondence machinery: src/verif.rs hook shim in /repo (cfg arc_swap_verif), harness/conc (baton scheduler over OS threads, VPtr arena, address canonicalisation), tools/corr.py line diff ('?' wildcard only for the private cached pointer of Cache::new)",
         "modelled, not verified: global allocator / Box::leak of nodes, thread_local life cycle, the RefCnt implementation of the pointee (VPtr arena stands in for Arc), Rust unwinding",
-        "memory model: sequentially consistent interleavings of the atomic accesses; orderings enter only the trace comparison and the C07 skeleton",
+        "memory model: sequentially consistent interleavings of the atomic accesses, except five load sites that may be answered with stale values (Stale.v, Stale2.v, StaleC.v: first read of the fast path, slot scan, in_use look, head read before the push loop, the cache's revalidating read - the last with views, StaleCView.v); for everything else the orderings enter the trace comparison and the C07 skeleton only",
     ]
 
 
